@@ -384,4 +384,293 @@ theorem roundMag_spec (N D : Nat) (hN : 0 < N) (hD : 0 < D) :
     rw [hE, ← hval] at hv
     exact ⟨m, e, by rw [hrm, if_neg hb]; exact hd, hv⟩
 
+/-! ## signs -/
+
+theorem rneQ_zero : rneQ 0 = 0 := by
+  unfold rneQ; simp [rneInt]
+
+theorem rneQ_neg_of_pos (y : ℚ) (hy : 0 < y) : rneQ (-y) = -rneQ y := by
+  have hc : cexp (-y) = cexp y := by unfold cexp; rw [abs_neg]
+  unfold rneQ
+  rw [if_pos (by linarith), if_neg (by linarith), hc, neg_neg]
+
+theorem rneQ_nonneg (y : ℚ) (hy : 0 ≤ y) : 0 ≤ rneQ y := by
+  unfold rneQ
+  rw [if_neg (not_lt.2 hy)]
+  apply mul_nonneg _ (two_zpow_pos _).le
+  have : (0 : ℤ) ≤ rneInt (y / 2 ^ cexp y) := rneInt_ge_of_ge _ 0 (by simpa using div_nonneg hy (two_zpow_pos _).le)
+  exact_mod_cast this
+
+/-- bits below 2^63 decode with a clear sign; adding 2^63 sets it and changes nothing else -/
+def decodeWith (s : Bool) (b : Nat) : Dbl :=
+  let ex := b / 4503599627370496 % 2048
+  let fr := b % 4503599627370496
+  if ex = 2047 then (if fr = 0 then .inf s else .nan)
+  else if ex = 0 then .fin s fr (-1074)
+  else .fin s (fr + 4503599627370496) (Int.ofNat ex - 1075)
+
+theorem decode_signed (mag : Nat) (hm : mag < 9223372036854775808) :
+    decode mag = decodeWith false mag ∧ decode (9223372036854775808 + mag) = decodeWith true mag := by
+  have e0 : mag / 9223372036854775808 % 2 = 0 := by omega
+  have e1 : (9223372036854775808 + mag) / 9223372036854775808 % 2 = 1 := by omega
+  have e2 : (9223372036854775808 + mag) / 4503599627370496 % 2048 = mag / 4503599627370496 % 2048 := by omega
+  have e3 : (9223372036854775808 + mag) % 4503599627370496 = mag % 4503599627370496 := by omega
+  constructor
+  · unfold decode decodeWith; simp only [e0]; rfl
+  · unfold decode decodeWith; simp only [e1, e2, e3]; rfl
+
+theorem decode_withSign_fin (neg : Bool) (mag m : Nat) (e : ℤ) (hm : mag < 9223372036854775808)
+    (h : decode mag = .fin false m e) : decode (withSign neg mag) = .fin neg m e := by
+  obtain ⟨h0, h1⟩ := decode_signed mag hm
+  cases neg with
+  | false => exact h
+  | true =>
+    show decode (9223372036854775808 + mag) = _
+    rw [h1]
+    rw [h0] at h
+    unfold decodeWith at h ⊢
+    simp only [] at h ⊢
+    split at h
+    · split at h <;> exact absurd h (by simp)
+    · rename_i hx
+      rw [if_neg hx]
+      split at h
+      · rename_i hy; rw [if_pos hy]; injection h with _ h2 h3; rw [h2, h3]
+      · rename_i hy; rw [if_neg hy]; injection h with _ h2 h3; rw [h2, h3]
+
+theorem decode_withSign_inf (neg : Bool) : decode (withSign neg infBits) = .inf neg := by
+  cases neg <;> decide
+
+theorem roundMag_lt (N D : Nat) : roundMag N D < 9223372036854775808 := by
+  unfold roundMag
+  simp only []
+  split
+  · decide
+  · rename_i h; unfold infBits at h; omega
+
+/-- the sign factor -/
+def sgnQ (neg : Bool) : ℚ := if neg then -1 else 1
+
+theorem smant_eq (neg : Bool) (m : Nat) : ((smant neg m : ℤ) : ℚ) = sgnQ neg * (m : ℚ) := by
+  unfold smant sgnQ; cases neg <;> simp
+
+/-- ★ `roundSigned neg N D` is the binary64 with value `rneQ (± N / D)`; beyond the largest finite value: infinity of
+    that sign; a zero keeps the sign it was given -/
+theorem roundSigned_correct (neg : Bool) (N D : Nat) (hD : 0 < D) :
+    (|rneQ (sgnQ neg * ((N : ℚ) / D))| < 2 ^ (1024 : ℤ) →
+      ∃ m e, decode (roundSigned neg N D) = .fin neg m e ∧ sgnQ neg * ((m : ℚ) * 2 ^ e) = rneQ (sgnQ neg * ((N : ℚ) / D))) ∧
+    ((2 : ℚ) ^ (1024 : ℤ) ≤ |rneQ (sgnQ neg * ((N : ℚ) / D))| → decode (roundSigned neg N D) = .inf neg) := by
+  by_cases hN : N = 0
+  · subst hN
+    have hz : sgnQ neg * (((0 : Nat) : ℚ) / D) = 0 := by simp
+    rw [hz, rneQ_zero]
+    have hd : decode (roundSigned neg 0 D) = .fin neg 0 (-1074) := by
+      unfold roundSigned; rw [if_pos rfl]
+      exact decode_withSign_fin neg 0 0 (-1074) (by decide) (by decide)
+    refine ⟨fun _ => ⟨0, -1074, hd, by simp⟩, fun h => ?_⟩
+    rw [abs_zero] at h
+    exact absurd h (not_le.2 (two_zpow_pos _))
+  · have hNp : 0 < N := Nat.pos_of_ne_zero hN
+    obtain ⟨k1, _⟩ := ilog2Ratio_spec N D hNp hD
+    have hx : (0 : ℚ) < (N : ℚ) / D := lt_of_lt_of_le (two_zpow_pos _) k1
+    have hr0 := rneQ_nonneg _ hx.le
+    have habs : |rneQ (sgnQ neg * ((N : ℚ) / D))| = rneQ ((N : ℚ) / D) := by
+      cases neg with
+      | false => simp only [sgnQ, Bool.false_eq_true, if_false, one_mul]; exact abs_of_nonneg hr0
+      | true =>
+        simp only [sgnQ, if_true, neg_one_mul]
+        rw [rneQ_neg_of_pos _ hx, abs_neg]; exact abs_of_nonneg hr0
+    have hval : rneQ (sgnQ neg * ((N : ℚ) / D)) = sgnQ neg * rneQ ((N : ℚ) / D) := by
+      cases neg with
+      | false => simp [sgnQ]
+      | true => simp only [sgnQ, if_true, neg_one_mul]; exact rneQ_neg_of_pos _ hx
+    obtain ⟨s1, s2⟩ := roundMag_spec N D hNp hD
+    have hrs : roundSigned neg N D = withSign neg (roundMag N D) := by unfold roundSigned; rw [if_neg hN]
+    rw [habs, hrs]
+    refine ⟨fun h => ?_, fun h => ?_⟩
+    · obtain ⟨m, e, hd, hv⟩ := s1 h
+      exact ⟨m, e, decode_withSign_fin neg _ m e (roundMag_lt N D) hd, by rw [hval, hv]⟩
+    · rw [s2 h]; exact decode_withSign_inf neg
+
+/-- the same, in terms of `FinBits` / `valQ` -/
+theorem roundSigned_valQ (neg : Bool) (N D : Nat) (hD : 0 < D) (x : ℚ) (hx : x = sgnQ neg * ((N : ℚ) / D)) :
+    (|rneQ x| < 2 ^ (1024 : ℤ) → FinBits (roundSigned neg N D) ∧ valQ (roundSigned neg N D) = rneQ x) ∧
+    ((2 : ℚ) ^ (1024 : ℤ) ≤ |rneQ x| → decode (roundSigned neg N D) = .inf neg) := by
+  subst hx
+  obtain ⟨h1, h2⟩ := roundSigned_correct neg N D hD
+  refine ⟨fun h => ?_, h2⟩
+  obtain ⟨m, e, hd, hv⟩ := h1 h
+  refine ⟨⟨neg, m, e, hd⟩, ?_⟩
+  unfold valQ
+  rw [hd, ← hv]
+  simp only [Dbl.toRat, smant_eq]
+  ring
+
+theorem dy_value (m : Nat) (e : ℤ) : ((dyNum m e : Nat) : ℚ) / (dyDen e : Nat) = (m : ℚ) * 2 ^ e ∧ 0 < dyDen e := by
+  unfold dyNum dyDen
+  by_cases he : 0 ≤ e
+  · rw [if_pos he, if_pos he]
+    obtain ⟨j, hj⟩ := Int.eq_ofNat_of_zero_le he
+    rw [hj, Int.toNat_natCast, zpow_natCast]
+    refine ⟨by push_cast; simp, by decide⟩
+  · rw [if_neg he, if_neg he]
+    obtain ⟨j, hj⟩ := Int.eq_ofNat_of_zero_le (show 0 ≤ -e by omega)
+    have he' : e = -(j : ℤ) := by omega
+    rw [hj, Int.toNat_natCast, he', zpow_neg, zpow_natCast]
+    refine ⟨by push_cast; rw [div_eq_mul_inv], Nat.two_pow_pos j⟩
+
+theorem valQ_of_decode (a : Nat) (n : Bool) (m : Nat) (e : ℤ) (h : decode a = .fin n m e) :
+    valQ a = sgnQ n * ((m : ℚ) * 2 ^ e) := by
+  unfold valQ; rw [h]; simp only [Dbl.toRat, smant_eq]; ring
+
+theorem sgnQ_mul (a b : Bool) : sgnQ a * sgnQ b = sgnQ (a != b) := by
+  cases a <;> cases b <;> simp [sgnQ]
+
+/-! ## the four operations -/
+
+/-- ★ `x * y` on finite operands: the product of the two rationals, rounded once (`rneQ`); infinity of the product's sign
+    when the rounded value is beyond the largest finite binary64 -/
+theorem mul_correct (a b : Nat) (n1 n2 : Bool) (m1 m2 : Nat) (e1 e2 : ℤ)
+    (ha : decode a = .fin n1 m1 e1) (hb : decode b = .fin n2 m2 e2) :
+    (|rneQ (valQ a * valQ b)| < 2 ^ (1024 : ℤ) → FinBits (mul a b) ∧ valQ (mul a b) = rneQ (valQ a * valQ b)) ∧
+    ((2 : ℚ) ^ (1024 : ℤ) ≤ |rneQ (valQ a * valQ b)| → decode (mul a b) = .inf (n1 != n2)) := by
+  have hm : mul a b = roundSigned (n1 != n2) (dyNum (m1 * m2) (e1 + e2)) (dyDen (e1 + e2)) := by
+    unfold mul; rw [ha, hb]
+  obtain ⟨dv, dp⟩ := dy_value (m1 * m2) (e1 + e2)
+  rw [hm]
+  apply roundSigned_valQ _ _ _ dp
+  rw [dv, valQ_of_decode a n1 m1 e1 ha, valQ_of_decode b n2 m2 e2 hb, ← sgnQ_mul, ← zpow2_add]
+  push_cast
+  ring
+
+/-- ★ `x / y`, y ≠ 0 -/
+theorem div_correct (a b : Nat) (n1 n2 : Bool) (m1 m2 : Nat) (e1 e2 : ℤ)
+    (ha : decode a = .fin n1 m1 e1) (hb : decode b = .fin n2 m2 e2) (hm2 : m2 ≠ 0) :
+    (|rneQ (valQ a / valQ b)| < 2 ^ (1024 : ℤ) → FinBits (div a b) ∧ valQ (div a b) = rneQ (valQ a / valQ b)) ∧
+    ((2 : ℚ) ^ (1024 : ℤ) ≤ |rneQ (valQ a / valQ b)| → decode (div a b) = .inf (n1 != n2)) := by
+  have hm : div a b = roundSigned (n1 != n2) (dyNum m1 (e1 - e2)) (m2 * dyDen (e1 - e2)) := by
+    unfold div; rw [ha, hb]; simp only []; rw [if_neg hm2]
+  obtain ⟨dv, dp⟩ := dy_value m1 (e1 - e2)
+  have hm2q : (m2 : ℚ) ≠ 0 := by exact_mod_cast hm2
+  have hdq : ((dyDen (e1 - e2) : Nat) : ℚ) ≠ 0 := by exact_mod_cast dp.ne'
+  rw [hm]
+  apply roundSigned_valQ _ _ _ (Nat.mul_pos (Nat.pos_of_ne_zero hm2) dp)
+  have e : ((dyNum m1 (e1 - e2) : Nat) : ℚ) / ((m2 * dyDen (e1 - e2) : Nat) : ℚ) = (m1 : ℚ) * 2 ^ (e1 - e2) / m2 := by
+    rw [← dv]; push_cast; field_simp
+  rw [e, valQ_of_decode a n1 m1 e1 ha, valQ_of_decode b n2 m2 e2 hb, ← sgnQ_mul, zpow_sub₀ (by norm_num : (2 : ℚ) ≠ 0)]
+  have h2 : (2 : ℚ) ^ e2 ≠ 0 := (two_zpow_pos e2).ne'
+  have hs : sgnQ n2 ≠ 0 := by cases n2 <;> simp [sgnQ]
+  have hs2 : sgnQ n2 * sgnQ n2 = 1 := by cases n2 <;> simp [sgnQ]
+  field_simp
+  have hs3 : sgnQ n2 ^ 2 = 1 := by rw [pow_two]; exact hs2
+  rw [hs3, mul_one]
+
+theorem valQ_smant (a : Nat) (n : Bool) (m : Nat) (e : ℤ) (h : decode a = .fin n m e) :
+    valQ a = ((smant n m : ℤ) : ℚ) * 2 ^ e := by
+  unfold valQ; rw [h]; rfl
+
+/-- ★ `x + y` on finite operands; an exact zero sum is +0 unless both operands are -0 -/
+theorem add_correct (a b : Nat) (n1 n2 : Bool) (m1 m2 : Nat) (e1 e2 : ℤ)
+    (ha : decode a = .fin n1 m1 e1) (hb : decode b = .fin n2 m2 e2) :
+    (|rneQ (valQ a + valQ b)| < 2 ^ (1024 : ℤ) → FinBits (add a b) ∧ valQ (add a b) = rneQ (valQ a + valQ b)) ∧
+    ((2 : ℚ) ^ (1024 : ℤ) ≤ |rneQ (valQ a + valQ b)| → decode (add a b) = .inf (decide (valQ a + valQ b < 0))) := by
+  set e := min e1 e2 with he
+  obtain ⟨j1, hj1⟩ := Int.eq_ofNat_of_zero_le (show 0 ≤ e1 - e by omega)
+  obtain ⟨j2, hj2⟩ := Int.eq_ofNat_of_zero_le (show 0 ≤ e2 - e by omega)
+  set s : ℤ := smant n1 m1 * 2 ^ (e1 - e).toNat + smant n2 m2 * 2 ^ (e2 - e).toNat with hs
+  have hx : valQ a + valQ b = (s : ℚ) * 2 ^ e := by
+    rw [valQ_smant a n1 m1 e1 ha, valQ_smant b n2 m2 e2 hb, hs, hj1, hj2]
+    simp only [Int.toNat_natCast]
+    have h1 : e1 = (j1 : ℤ) + e := by omega
+    have h2 : e2 = (j2 : ℤ) + e := by omega
+    push_cast
+    conv_lhs => rw [h1, h2]
+    rw [← zpow2_add, ← zpow2_add, zpow_natCast, zpow_natCast]
+    ring
+  have hadd : add a b = if s = 0 then withSign (n1 && n2) 0
+      else roundSigned (decide (s < 0)) (dyNum s.natAbs e) (dyDen e) := by
+    unfold add; rw [ha, hb]
+  rw [hadd, hx]
+  by_cases h0 : s = 0
+  · rw [if_pos h0, h0]
+    simp only [Int.cast_zero, zero_mul, rneQ_zero, abs_zero]
+    have hd : decode (withSign (n1 && n2) 0) = .fin (n1 && n2) 0 (-1074) :=
+      decode_withSign_fin _ 0 0 (-1074) (by decide) (by decide)
+    refine ⟨fun _ => ⟨⟨_, _, _, hd⟩, by unfold valQ; rw [hd]; simp [Dbl.toRat, smant]⟩, fun h => ?_⟩
+    exact absurd h (not_le.2 (two_zpow_pos _))
+  · rw [if_neg h0]
+    obtain ⟨dv, dp⟩ := dy_value s.natAbs e
+    have hsign : (decide ((s : ℚ) * 2 ^ e < 0)) = decide (s < 0) := by
+      have : ((s : ℚ) * 2 ^ e < 0) ↔ s < 0 := by
+        rw [mul_neg_iff]
+        constructor
+        · rintro (⟨_, h⟩ | ⟨h, _⟩)
+          · exact absurd h (not_lt.2 (two_zpow_pos e).le)
+          · exact_mod_cast h
+        · intro h; exact Or.inr ⟨by exact_mod_cast h, two_zpow_pos e⟩
+      simp only [this]
+    rw [hsign]
+    apply roundSigned_valQ _ _ _ dp
+    rw [dv]
+    have hq : ((s.natAbs : Nat) : ℚ) = |(s : ℚ)| := by rw [Nat.cast_natAbs, Int.cast_abs]
+    have habs : (s : ℚ) = sgnQ (decide (s < 0)) * ((s.natAbs : Nat) : ℚ) := by
+      rw [hq]
+      by_cases hneg : s < 0
+      · simp only [hneg, decide_true, sgnQ, if_true]
+        rw [abs_of_neg (by exact_mod_cast hneg)]; ring
+      · simp only [hneg, decide_false, sgnQ, Bool.false_eq_true, if_false, one_mul]
+        rw [abs_of_nonneg (by exact_mod_cast (not_lt.1 hneg))]
+    conv_lhs => rw [habs]
+    ring
+
+/-- flipping the sign bit -/
+theorem decode_flip (b b' : Nat) (n : Bool) (m : Nat) (e : ℤ)
+    (h1 : b' / 9223372036854775808 % 2 = 1 - b / 9223372036854775808 % 2)
+    (h2 : b' / 4503599627370496 % 2048 = b / 4503599627370496 % 2048) (h3 : b' % 4503599627370496 = b % 4503599627370496)
+    (h : decode b = .fin n m e) : decode b' = .fin (!n) m e := by
+  unfold decode at h ⊢
+  simp only [h2, h3] at h ⊢
+  have hbit : b / 9223372036854775808 % 2 = 0 ∨ b / 9223372036854775808 % 2 = 1 := by omega
+  split at h
+  · split at h <;> exact absurd h (by simp)
+  · rename_i hx
+    rw [if_neg hx]
+    split at h
+    · rename_i hy
+      rw [if_pos hy]
+      injection h with h1' h2' h3'
+      rw [← h2', ← h3', ← h1']
+      rcases hbit with hb | hb <;> simp [h1, hb]
+    · rename_i hy
+      rw [if_neg hy]
+      injection h with h1' h2' h3'
+      rw [← h2', ← h3', ← h1']
+      rcases hbit with hb | hb <;> simp [h1, hb]
+
+theorem negate_fin (b : Nat) (n : Bool) (m : Nat) (e : ℤ) (h : decode b = .fin n m e) :
+    decode (negate b) = .fin (!n) m e := by
+  unfold negate
+  rw [h]
+  simp only []
+  by_cases hbit : b / signBitVal % 2 = 1
+  · rw [if_pos hbit]
+    unfold signBitVal at hbit ⊢
+    exact decode_flip b _ n m e (by omega) (by omega) (by omega) h
+  · rw [if_neg hbit]
+    unfold signBitVal at hbit ⊢
+    exact decode_flip b _ n m e (by omega) (by omega) (by omega) h
+
+/-- ★ `x - y` = `x + (-y)` -/
+theorem sub_correct (a b : Nat) (n1 n2 : Bool) (m1 m2 : Nat) (e1 e2 : ℤ)
+    (ha : decode a = .fin n1 m1 e1) (hb : decode b = .fin n2 m2 e2) :
+    (|rneQ (valQ a - valQ b)| < 2 ^ (1024 : ℤ) → FinBits (sub a b) ∧ valQ (sub a b) = rneQ (valQ a - valQ b)) ∧
+    ((2 : ℚ) ^ (1024 : ℤ) ≤ |rneQ (valQ a - valQ b)| → decode (sub a b) = .inf (decide (valQ a - valQ b < 0))) := by
+  have hn := negate_fin b n2 m2 e2 hb
+  have hv : valQ (negate b) = -valQ b := by
+    rw [valQ_of_decode _ _ _ _ hn, valQ_of_decode _ _ _ _ hb]
+    cases n2 <;> simp [sgnQ]
+  have := add_correct a (negate b) n1 (!n2) m1 m2 e1 e2 ha hn
+  rw [hv, ← sub_eq_add_neg] at this
+  exact this
+
 end JanetModel.Int64.Ieee
